@@ -455,7 +455,8 @@ def run(rec, cfg):
                 rec.truncated = True
                 break
             for name, a, k in calls(rng):
-                for pretty, hostile in ((True, False), (False, False), (True, True), (False, True)):
+                # (the shard that runs with the caller's own decimal context spends its calls on the number mode that has decimals)
+                for pretty, hostile in (((False, False), (False, True), (False, False), (True, False)) if core.CALLER_ENV[0] else ((True, False), (False, False), (True, True), (False, True))):
                     seed = (cfg.seed * 1000003 + cfg.shard * 100003 + i * 31 + (0 if pretty else 7) + (0 if not hostile else 13)) % (2 ** 31)
                     random.seed(seed)
                     STATE["seed"] = seed
